@@ -87,6 +87,8 @@ def run(tier, seed, replay=None):
             ck.add_report(rep)
             ck.cov["reads_while_writer_parked_%s_%s" % (name, label)] = rep["extra"].get("reads_completed_while_writer_parked", 0)
             traces.append((name + "-" + label, sorted(glob.glob(prefix + ".*"))))
+        if ck.divergences:
+            break       # the verdict is settled: the remaining configurations would only cost watchdog time
     # 3. TLC validates the recorded reads
     for name, files in traces:
         validate_trace(ck, files, name)
